@@ -469,6 +469,59 @@ pub fn s_pair_ctx(thorough: bool) -> Space {
     }
 }
 
+/// A byte-mode payload of full capacity whose placed data codewords are (from the first payload bit on) the
+/// pattern of mask `k` itself, or its complement: candidate `k` of the selection is then uniformly light (dark) over
+/// the whole data-codeword region, the most extreme candidate there is (longest runs, most 2x2 blocks, extreme
+/// dark ratio), and every other candidate is the XOR of two mask patterns.
+pub fn antimask_payload(v: usize, e: usize, k: usize, complement: bool) -> Vec<u8> {
+    let g = r::geo_of(v);
+    let total = r::total_codewords(v);
+    let mut cw = vec![0u8; total];
+    for (i, &(y, x)) in g.zigzag.iter().enumerate() {
+        if i / 8 < total && (r::maskbit(k, y, x) ^ complement) {
+            cw[i / 8] |= 1 << (7 - i % 8);
+        }
+    }
+    let dc = r::data_codewords(v, e);
+    let ec = r::ECPB[e][v];
+    let blocks = r::deinterleave(&cw, v, e);
+    let mut data: Vec<u8> = vec![];
+    for b in &blocks {
+        data.extend_from_slice(&b[..b.len() - ec]);
+    }
+    debug_assert_eq!(data.len(), dc);
+    let hdr = 4 + r::cci(v, 2);
+    let len = r::cap(v, e, 2);
+    let bit = |p: usize| -> u8 { (data[p / 8] >> (7 - p % 8)) & 1 };
+    (0..len).map(|i| (0..8).fold(0u8, |acc, j| (acc << 1) | bit(hdr + 8 * i + j))).collect()
+}
+
+/// S_antimask: the anti-mask payloads of every mask and both polarities, mask automatic (and forced to k)
+pub fn s_antimask(thorough: bool) -> Space {
+    let mut cases = vec![];
+    let versions: Vec<usize> = if thorough { (1..=40).collect() } else { vec![1, 2, 7, 20, 39, 40] };
+    let levels: &[usize] = if thorough { &[0, 1, 2, 3] } else { &[0, 3] };
+    for &v in &versions {
+        for &e in levels {
+            for k in 0..8usize {
+                for complement in [false, true] {
+                    let p = antimask_payload(v, e, k, complement);
+                    cases.push(Case::new(p.clone(), Opts { mode: Some(2), ecl: Some(e as u8), version: Some(v as u8), mask: None, order: 0 }));
+                    if thorough || complement {
+                        cases.push(Case::new(p, Opts { mode: Some(2), ecl: Some(e as u8), version: Some(v as u8), mask: Some(k as u8), order: 0 }));
+                    }
+                }
+            }
+        }
+    }
+    Space {
+        name: "S_antimask".into(),
+        describe: format!("byte-mode payloads of full capacity whose placed data codewords equal mask pattern k or its complement (candidate k uniformly light / dark over the data-codeword region): versions {:?} x levels {:?} x 8 masks x 2 polarities, mask automatic and forced to k", versions, levels),
+        cases,
+        exhaustive: true,
+    }
+}
+
 /// S_forced_dense: dense lengths under forced versions (the symbol is only partly filled: every count of spare
 /// bits modulo 8, 16, 256 occurs; long pad runs; every terminator situation far from capacity)
 pub fn s_forced_dense(thorough: bool) -> Space {
